@@ -137,7 +137,7 @@ theorem C08_recv_error_closes (p : ProxyS) (m : MuxL) (e : ESock) (io : CbIo) (p
     (hrecv : io.recv = .err) (hse : SE p.sw e) (h : p.callback m e io = .ok p' m' e') :
     p'.sw.shutR = true ∧ p'.sw.shutW = true ∧ e'.sawShut = true ∧ p'.sw.exc = true := by
   have hse' := hse.callback m io p' m' e' h
-  suffices hx : p'.sw.exc = true from ⟨(hse'.1 hx).1, (hse'.1 hx).2, hse'.2 (hse'.1 hx).2, hx⟩
+  suffices hx : p'.sw.exc = true from ⟨(hse'.1 hx).1, (hse'.1 hx).2, hse'.2.mp (hse'.1 hx).2, hx⟩
   -- `exc` is set by the fill stage and never cleared
   obtain ⟨psw, pmw, pok, sf⟩ := p
   simp only at hc hb hr
@@ -265,14 +265,14 @@ theorem C08_error_means_closed (w0 : World) (h0 : w0.flows = []) (steps : List S
         (p.sw.exc = true → p.sw.shutR = true ∧ p.sw.shutW = true ∧ f.dst.sawShut = true) ∧
         (p.ok = false → p.mw.registered = false ∧ f.dst.sawShut = true)) := by
   intro f hf
-  obtain ⟨hc, hs⟩ := reach_flowSock w0 h0 steps f hf
+  obtain ⟨hc, hs, _, _⟩ := reach_flowSock w0 h0 steps f hf
   constructor
   · intro p hp
     obtain ⟨⟨a, b⟩, d⟩ := hc p hp
-    exact ⟨fun hx => ⟨(a hx).1, (a hx).2, b (a hx).2⟩, fun hok => ⟨(d hok).unregistered, b (d hok).2.1⟩⟩
+    exact ⟨fun hx => ⟨(a hx).1, (a hx).2, b.mp (a hx).2⟩, fun hok => ⟨(d hok).unregistered, b.mp (d hok).2.1⟩⟩
   · intro p hp
     obtain ⟨⟨a, b⟩, d⟩ := hs p hp
-    exact ⟨fun hx => ⟨(a hx).1, (a hx).2, b (a hx).2⟩, fun hok => ⟨(d hok).unregistered, b (d hok).2.1⟩⟩
+    exact ⟨fun hx => ⟨(a hx).1, (a hx).2, b.mp (a hx).2⟩, fun hok => ⟨(d hok).unregistered, b.mp (d hok).2.1⟩⟩
 
 /-! ## 3. other flows are not touched -/
 
